@@ -50,11 +50,13 @@ def gen_cases(tier: str, seed: int):
     for i in range(n):
         adapters, stager = [([], None), (["step"], None), (["step", "var"], [2, 1, 1, 2.0]), (["var"], [2, 0, 0, 2.0])][i % 4]
         mode = ["seq", "seq-userdir", "par", "par-signal", "par-userdir", "par-signal-parent", "seq-userdir"][i % 7]
-        cfg = {"n_chain": int(rng.integers(2, 4)), "n_warm": int(rng.choice([3, 4, 6])) if adapters else int(rng.choice([0, 2])),
+        cfg = {"n_chain": int(rng.integers(2, 4)), "n_warm": int(rng.choice([3, 4, 6])) if adapters else int(rng.choice([0, 2, 3, 3])),
                "n_main": int(rng.choice([2, 3, 5])), "adapters": adapters, "stager": stager, "seed": int(rng.integers(0, 10**6)),
                "model_seed": int(rng.integers(0, 100)), "dim": int(rng.integers(1, 4)), "trace": [["pos"], ["pos", "scalars"], ["energy"]][i % 3],
                "trace_warm_up": bool(rng.integers(0, 2)), "transition": ["static", "multinomial", "slice"][i % 3], "init": "state",
                "n_process": 1 if mode.startswith("seq") else int(rng.choice([2, 3])), "force_memmap": "userdir" in mode}
+        if mode in ("par", "par-userdir") and i % 2 == 0:
+            cfg["n_chain"], cfg["n_process"] = int(rng.choice([3, 4, 5])), 2  # more chains than workers: some are still queued
         yield {"cfg": cfg, "mode": mode, "n_points": {"quick": 4, "thorough": 10}[tier], "seed": [seed, i]}
 
 
@@ -155,7 +157,7 @@ def is_fill(x, fill):
     return bool(np.all(x == fill))
 
 
-def judge(obs, cfg, mode, point, ref, got, stages, types, udir):  # noqa: C901, PLR0912
+def judge(obs, cfg, mode, point, ref, got, stages, types, udir, all_chains=False):  # noqa: C901, PLR0912
     tag, it, fn, idx = point
     where = f"interrupt at {fn} call {idx} of chain {tag} iteration {it} ({mode}); cfg={cfg}"
     if got["exc"] is not None:
@@ -185,6 +187,8 @@ def judge(obs, cfg, mode, point, ref, got, stages, types, udir):  # noqa: C901, 
         obs.violation(f"interrupt-not-delivered:{mode}", f"the interrupted iteration completed; {where}")
     n_chain = cfg["n_chain"]
     lenient = {(tag, it)} | (started - done)
+    if all_chains:  # every chain reaching the point is interrupted there, possibly between two of its trace functions
+        lenient |= {(c, it) for c in range(cfg["n_chain"])}
     if mode == "par-signal-parent":
         lenient = set()  # only the parent is interrupted: the workers finish the stage, every started iteration completes
     if mode == "par-signal":  # every worker is hit at an arbitrary point, possibly inside a trace function
@@ -242,28 +246,35 @@ def judge(obs, cfg, mode, point, ref, got, stages, types, udir):  # noqa: C901, 
             init = ref["init_pos"].get(ftag)
             if init is not None and not np.array_equal(pos, init):
                 obs.violation(f"final-state-position:{mode}", f"chain {ftag} completed no iteration but its final state left the initial position; {where}")
+    fcache = {}
     if udir is not None and got.get("interrupt_t") and mode.startswith("seq") and it in rows:
-        # the interrupted chain's memory maps must be flushed after the interrupt
+        # the interrupted chain's memory maps must be flushed after the interrupt (files identified by content: the naming
+        # scheme is not documented; an array held by several identical files needs one of them flushed)
+        from mv import samp
+
         t0 = got["interrupt_t"]
         flushed = {Path(f).name for f, t in got.get("flush_log", []) if t > t0}
-        mine = [f"trace_{tag}_{key}.npy" if kind == "trace" else f"stats_{tag}_integration_transition_{key}.npy"
-                for (kind, key, c) in got["flat"] if c == tag]
+        mine = [(kind, key, arr) for (kind, key, c), arr in got["flat"].items() if c == tag]
         obs.count("flush_checks", len(mine))
-        missing = [n for n in mine if n not in flushed]
+        missing = []
+        for kind, key, arr in mine:
+            names = samp.files_holding(udir, arr, fcache)
+            if names and not (set(names) & flushed):
+                missing.append(f"{kind} {key!r} ({names[0]})")
         if missing:
             obs.violation(f"memmap-not-flushed-after-interrupt:{mode}",
                           f"{len(missing)} of {len(mine)} memory maps of the interrupted chain were not flushed after the interrupt "
                           f"(e.g. {missing[0]}); {where}")
     if udir is not None:
+        from mv import samp
+
         files = sorted(Path(udir).glob("*.npy"))
         obs.count("npy_files_reread", len(files))
         for (kind, key, c), arr in got["flat"].items():
-            name = f"trace_{c}_{key}.npy" if kind == "trace" else f"stats_{c}_integration_transition_{key}.npy"
-            f = Path(udir) / name
-            if not f.exists():
-                obs.violation(f"memmap-file-missing:{mode}", f"{name} missing; {where}")
-            elif not np.array_equal(np.load(f), arr, equal_nan=True):
-                obs.violation(f"memmap-not-flushed:{mode}", f"{name} on disk differs from the returned array; {where}")
+            if not samp.files_holding(udir, arr, fcache):
+                obs.violation(f"memmap-not-flushed:{mode}", f"no file in the user directory holds the returned {kind} {key!r} of chain {c} "
+                                                            f"({len(files)} files present); {where}")
+                break
 
 
 def run_case(case, obs) -> None:  # noqa: C901
@@ -310,6 +321,10 @@ def run_case(case, obs) -> None:  # noqa: C901
         for point in chosen:
             tag, it, fn, idx = point
             icfg = dict(cfg, interrupt={"fn": fn, "tag": tag, "iter": it, "call": idx})
+            if mode in ("par", "par-userdir") and rng.integers(0, 2):
+                # the same point in EVERY chain that reaches it: all workers are interrupted, chains still queued never start
+                icfg["interrupt"]["all_chains"] = True
+                obs.count("all_chain_interrupts")
             udir = None
             if "userdir" in mode:
                 udir = str(Path(workdir) / f"user-{np.random.default_rng().integers(1 << 40)}")
@@ -348,7 +363,7 @@ def run_case(case, obs) -> None:  # noqa: C901
                     continue
             obs.count("interrupts_injected")
             obs.count(f"injected.{mode}.{fn}")
-            judge(obs, cfg, mode, point, ref, got, stages, ref["types"], udir)
+            judge(obs, cfg, mode, point, ref, got, stages, ref["types"], udir, all_chains=bool(icfg["interrupt"].get("all_chains")))
             total = sum(st.n_iter for _k, st in stages)
             pos_class = "first" if it == 0 else ("last" if it == total - 1 else "middle")
             obs.token(mode, cfg["transition"], tuple(cfg["adapters"]), fn, stage_kind.get(it), pos_class, tag == cfg["n_chain"] - 1)
